@@ -99,7 +99,50 @@ impl Relation for ArithInner {
     }
 }
 
+/// shape 2: a hand-written circuit whose single gate reads the plain instance
+/// column at two rotations (a = inst[0] + inst[1]); no lookup, k = 4
+#[derive(Clone, Default)]
+pub struct RotInner {
+    a: CValue<F>,
+}
+
+impl midnight_proofs::plonk::Circuit<F> for RotInner {
+    type Config = (midnight_proofs::plonk::Column<midnight_proofs::plonk::Advice>, midnight_proofs::plonk::Selector);
+    type FloorPlanner = midnight_proofs::circuit::SimpleFloorPlanner;
+    type Params = ();
+    fn without_witnesses(&self) -> Self {
+        RotInner::default()
+    }
+    fn configure(meta: &mut midnight_proofs::plonk::ConstraintSystem<F>) -> Self::Config {
+        use midnight_proofs::poly::Rotation;
+        let _committed = meta.instance_column();
+        let plain = meta.instance_column();
+        let a = meta.advice_column();
+        let s = meta.selector();
+        meta.create_gate("a = inst(cur) + inst(next)", |m| {
+            let a = m.query_advice(a, Rotation::cur());
+            let i0 = m.query_instance(plain, Rotation::cur());
+            let i1 = m.query_instance(plain, Rotation::next());
+            midnight_proofs::plonk::Constraints::with_selector(s, vec![a - i0 - i1])
+        });
+        (a, s)
+    }
+    fn synthesize(&self, config: Self::Config, mut l: impl Layouter<F>) -> Result<(), Error> {
+        l.assign_region(
+            || "sum",
+            |mut r| {
+                config.1.enable(&mut r, 0)?;
+                r.assign_advice(|| "a", config.0, 0, || self.a)?;
+                Ok(())
+            },
+        )
+    }
+}
+
 fn statement(shape: usize, w: [F; 2]) -> [F; 2] {
+    if shape == 2 {
+        return w;
+    }
     if shape == 0 {
         [<PoseidonChip<F> as HashCPU<F, F>>::hash(&w), <PoseidonChip<F> as HashCPU<F, F>>::hash(&w[1..])]
     } else {
@@ -149,6 +192,20 @@ fn inner_prove(shape: usize, srs: &ParamsKZG<Bls12>, seed: u64, count: usize) ->
             (vk.vk().clone(), out)
         }};
     }
+    if shape == 2 {
+        use midnight_proofs::{plonk::{create_proof, keygen_pk, keygen_vk_with_k}, poly::kzg::KZGCommitmentScheme};
+        let vk = keygen_vk_with_k(srs, &RotInner::default(), 4).expect("inner keygen");
+        let pk = keygen_pk(vk.clone(), &RotInner::default()).expect("inner keygen");
+        let mut out = vec![];
+        for _ in 0..count {
+            let inst = vec![F::random(&mut rng), F::random(&mut rng)];
+            let c = RotInner { a: CValue::known(inst[0] + inst[1]) };
+            let mut t = CircuitTranscript::<LightPoseidonFS<F>>::init();
+            create_proof::<F, KZGCommitmentScheme<Bls12>, _, _>(srs, &pk, &[c], 1, &[&[&[], &inst]], &mut rng, &mut t).expect("inner proof");
+            out.push((inst, t.finalize()));
+        }
+        return (vk, out);
+    }
     if shape == 0 {
         go!(PoseidonInner, PoseidonInner)
     } else {
@@ -161,10 +218,10 @@ impl AggFixture {
         rayon::sim::isolated(1, || {
             let mut srs = ParamsKZG::unsafe_setup(AGG_K, ChaCha8Rng::seed_from_u64(0xA66));
             let mut inner_srs = srs.clone();
-            if shape == 0 {
-                midnight_zk_stdlib::downsize_srs_for_relation(&mut inner_srs, &PoseidonInner);
-            } else {
-                midnight_zk_stdlib::downsize_srs_for_relation(&mut inner_srs, &ArithInner);
+            match shape {
+                0 => midnight_zk_stdlib::downsize_srs_for_relation(&mut inner_srs, &PoseidonInner),
+                1 => midnight_zk_stdlib::downsize_srs_for_relation(&mut inner_srs, &ArithInner),
+                _ => inner_srs.downsize(4),
             }
             let (inner_vk, mut proofs) = inner_prove(shape, &inner_srs, 0x1000 + (n * 7 + shape) as u64, n + 2);
             let spare = proofs.split_off(n);
@@ -263,8 +320,8 @@ type Slot = Mutex<Option<Arc<AggFixture>>>;
 
 fn fixture(n: usize, shape: usize) -> Arc<AggFixture> {
     static CELLS: OnceLock<Vec<Slot>> = OnceLock::new();
-    let cells = CELLS.get_or_init(|| (0..6).map(|_| Mutex::new(None)).collect());
-    let mut g = cells[(n - 1) * 2 + shape].lock().unwrap();
+    let cells = CELLS.get_or_init(|| (0..9).map(|_| Mutex::new(None)).collect());
+    let mut g = cells[(n - 1) * 3 + shape].lock().unwrap();
     if g.is_none() {
         *g = Some(crate::core::runner::on_fresh_thread(move || Arc::new(AggFixture::build(n, shape))));
     }
@@ -310,6 +367,10 @@ pub enum IpaFault {
     ProofElement(usize, u8),
     /// the prover is given a scalar vector that does not match the claims
     ProverScalar(usize),
+    /// both claims altered jointly, (res1 + D, res2 - D/r'), where r' is the batching challenge
+    /// an adversary computes from a prefix of the public data only: 0 = the bases, 1 = bases and
+    /// res1, 2 = bases and res2 (sound only if the real challenge depends on both claims)
+    JointClaims(u8),
     Truncate(usize),
 }
 
@@ -385,7 +446,13 @@ impl Check for C20 {
                         2 => IpaFault::Res1,
                         3 => IpaFault::Res2,
                         4 | 5 => IpaFault::ProofElement(rng.usize(2 * log_n as usize + 1), rng.below(4) as u8),
-                        6 => IpaFault::ProverScalar(rng.usize(n)),
+                        6 => {
+                            if rng.chance(1, 2) {
+                                IpaFault::ProverScalar(rng.usize(n))
+                            } else {
+                                IpaFault::JointClaims(rng.below(3) as u8)
+                            }
+                        }
                         _ => IpaFault::Truncate(rng.usize(2 * log_n as usize + 1)),
                     });
                 }
@@ -412,7 +479,7 @@ impl Check for C20 {
             }
             7 if thorough || idx % 32 == 7 => {
                 // one aggregation per run: sampled
-                let (n, shape) = (1 + rng.usize(3), if thorough { rng.usize(2) } else { 0 });
+                let (n, shape) = (1 + rng.usize(3), if thorough { rng.usize(3) } else { *rng.pick(&[0usize, 2]) });
                 let i = rng.usize(n);
                 let fault = match rng.below(5) {
                     0 | 1 => InnerFault::ProofBit { i, byte: rng.usize(1 << 20), bit: rng.below(8) as u8 },
@@ -423,7 +490,7 @@ impl Check for C20 {
                 Scn::Inner { n, shape, fault, seed: rng.u64() }
             }
             _ => {
-                let (n, shape) = if thorough { (1 + rng.usize(3), rng.usize(2)) } else { (1 + (idx as usize / 8) % 3, 0) };
+                let (n, shape) = if thorough { (1 + rng.usize(3), rng.usize(3)) } else { (1 + (idx as usize / 8) % 3, if (idx / 24) % 2 == 0 { 0 } else { 2 }) };
                 let mut faults = vec![MetaFault::None];
                 let nf = if thorough { 60 } else { 30 };
                 for _ in 0..nf {
@@ -590,6 +657,30 @@ fn run_ipa(log_n: u32, seed: u64, faults: &[IpaFault], zeros: bool, st: &mut Sta
                 let at = (*i * psz).min(proof.len().saturating_sub(1));
                 proof.truncate(at);
             }
+            IpaFault::JointClaims(prefix) => {
+                // the challenge an adversary can predict from a prefix of the public data
+                let mut t = CircuitTranscript::<Blake2b>::init();
+                bases1.iter().for_each(|b| t.common(b).unwrap());
+                bases2.iter().for_each(|b| t.common(b).unwrap());
+                match prefix {
+                    1 => t.common(&res1).unwrap(),
+                    2 => t.common(&res2).unwrap(),
+                    _ => {}
+                }
+                let rp: F = t.squeeze_challenge();
+                let d = C::generator() * F::from(0xD1FF);
+                r1 = res1 + d;
+                r2 = res2 - d * rp.invert().unwrap();
+                // a proof made for the altered claims with the true vector
+                let mut pt = CircuitTranscript::<Blake2b>::init();
+                match catch(|| rayon::sim::isolated(1, || verif_ipa::ipa_prove(&scalars, &bases1, &bases2, &r1, &r2, &mut pt))) {
+                    Ok(Ok(())) => proof = pt.finalize(),
+                    _ => {
+                        st.inc("ipa.prover_refused_joint_claims");
+                        continue;
+                    }
+                }
+            }
         }
         let hint = serde_json::to_value(f).unwrap();
         match verify(&b1, &b2, &r1, &r2, &proof) {
@@ -622,6 +713,7 @@ fn fault_kind(f: &IpaFault) -> &'static str {
         IpaFault::Res2 => "commitment",
         IpaFault::ProofElement(..) => "proof_element",
         IpaFault::ProverScalar(_) => "prover_vector",
+        IpaFault::JointClaims(_) => "joint_claims",
         IpaFault::Truncate(_) => "truncated",
     }
 }
